@@ -4150,3 +4150,40 @@ _override("F06-C17-drop-blocking-send", [(DB,
   """                .send(WorkerMessage::Close)
                 .is_err()
             {""")])
+
+# ---- round-7 rules: equivalence guards (the breaking side is replayed from seeded/S88.. S105)
+E("EQ-C04-replay-binds-the-id-first", REC,
+  """                let Some(keyspace_name) = db.meta_keyspace.resolve_id(item.keyspace_id)? else {
+                    continue;
+                };""",
+  """                let record_keyspace_id = item.keyspace_id;
+                let resolved = db.meta_keyspace.resolve_id(record_keyspace_id)?;
+                let Some(keyspace_name) = resolved else {
+                    continue;
+                };""", props=["C04", "C12", "C15", "C01", "C02"])
+E("EQ-C15-lz4-arm-with-a-debug-assert", ENTRY,
+  """            let compressed = lz4_flex::compress(value);
+            std::borrow::Cow::Owned(compressed)""",
+  """            let compressed = lz4_flex::compress(value);
+            debug_assert!(value.is_empty() || !compressed.is_empty());
+            std::borrow::Cow::Owned(compressed)""", props=["C15", "C02", "C04"])
+E("EQ-C17-second-name-assert-before-the-lock", DB,
+  """        assert!(is_valid_keyspace_name(name));
+
+        let keyspaces = self.supervisor.keyspaces.write().expect("lock is poisoned");""",
+  """        assert!(is_valid_keyspace_name(name));
+        assert!(name.len() <= 255, "keyspace names are at most 255 bytes long");
+
+        let keyspaces = self.supervisor.keyspaces.write().expect("lock is poisoned");""", props=["C17", "C12", "C16"])
+E("EQ-C01-is-empty-split", KS,
+  """        let nonce = self.supervisor.snapshot_tracker.open();
+        self.tree.is_empty(nonce.instant, None).map_err(Into::into)
+    }""",
+  """        let nonce = self.supervisor.snapshot_tracker.open();
+        let answer = self.tree.is_empty(nonce.instant, None)?;
+        Ok(answer)
+    }""", props=["C01", "C14", "C06", "C05"])
+B("C17-create-options-validated-under-lock", "C17", "C17:R-C17.15:db::Database::keyspace:no-assert-fires-under-the-keyspaces-write-lock", DB,
+  """            let mut opts = create_options();""",
+  """            let mut opts = create_options();
+            assert!(opts.max_memtable_size > 0, "max_memtable_size may not be zero");""")
